@@ -239,7 +239,7 @@ class Run:
     # ---------------------------------------------------------------- bounded stand-ins / monitors
     def bounded(self):
         for modname in self.cfg.get("bounded", []):
-            mod = importlib.import_module("bounded." + modname)
+            mod = importlib.import_module(modname if "." in modname else "bounded." + modname)
             res = mod.run(self.pid, self.tier, self.seed)
             self.ev["bounded"].append({k: v for k, v in res.items() if k != "findings"})
             for f in res.get("findings", []):
@@ -344,7 +344,7 @@ def _jsonable(x):
 def do_replay(pid, path):
     with open(path) as f: doc = json.load(f)
     if doc.get("kind") == "bounded":
-        mod = importlib.import_module("bounded." + doc["module"])
+        mod = importlib.import_module(doc["module"] if "." in doc["module"] else "bounded." + doc["module"])
         ok, msg = mod.replay(doc)
         print(msg)
         if not ok: print("VIOLATION property=%s replay=%s" % (pid, path)); return 1
